@@ -9,7 +9,7 @@ from ..sched import replay_case, run_case
 from ..spaces import flag_falsy_variants, kinds_all, kinds_rotating, prog_of, shard_iter, single_selections
 
 ID = "C03"
-BUDGET = {"quick": 100, "thorough": 1800}
+BUDGET = {"quick": 100, "thorough": 600}
 MONITORS = [mon_c03]
 
 
@@ -44,6 +44,17 @@ def cases(tier: str):
                         for mc in (1, 2, 3):
                             for is_async in (False, True):
                                 yield dict(n=n, es=es4, falsy=falsy, res=res, mc=mc, is_async=is_async, ties=1 if q else None)
+    # A4. N=4 (thorough: N=5 with <= 4 edges): rotating dependency forms, every subset of flags falsy
+    for n in ((4,) if q else (4, 5)):
+        for es in shapes(n):
+            if (n == 4 and q and len(es) > 4) or (n == 5 and len(es) > 4):
+                continue
+            for off in ((4,) if q else (0, 2, 4)):
+                es4 = kinds_rotating(es, off)
+                for falsy in flag_falsy_variants(es4):
+                    for res in (res_menu(n)[:2] if q else res_menu(n)[:4]):
+                        for mc in (2, 3):
+                            yield dict(n=n, es=es4, falsy=falsy, res=res, mc=mc, is_async=False, ties=0)
     # B. selections (single target / root / exclude)
     for n in (2, 3, 4):
         for es in shapes(n):
@@ -93,8 +104,18 @@ def nontrivial(view):
     return None
 
 
+def all_cases(tier):
+    import itertools
+
+    from ..spaces import cross_families, foreign_quick_cases
+    its = [cases(tier), cross_families(tier)]
+    if tier != "quick":
+        its.append(foreign_quick_cases("c03"))
+    return itertools.chain(*its)
+
+
 def run_shard(tier, k, n, acc):
-    for c in shard_iter(cases(tier), k, n, acc):
+    for c in shard_iter(all_cases(tier), k, n, acc):
         run_case(acc, c, MONITORS, nontrivial)
 
 
